@@ -193,8 +193,11 @@ def detector_params(draw, det, p, max_msl=5, max_bw=6, allow_cov=True):
                   "ignore_point_anomalies": draw(st.booleans())}
         if det == "MVCAPA":
             fams = ["dense", "sparse", "combined"] + (["intermediate"] if p >= 2 else [])
-            params["collective_penalty"] = draw(st.sampled_from(fams))
-            params["point_penalty"] = draw(st.sampled_from(fams))
+            # also user penalty callables (equal betas, so that they fit any number of columns); a lenient one
+            # detects weak anomalies in which no single column exceeds the sparse penalty
+            lenient = {"penalty": {"alpha": draw(st.sampled_from([1.0, 0.5, 3.0])), "betas": [draw(st.sampled_from([0.0, 0.2]))] * max(p, 1)}}
+            params["collective_penalty"] = draw(st.sampled_from(fams + [lenient]))
+            params["point_penalty"] = draw(st.sampled_from(fams + [lenient]))
         return params, msl
     if det == "StatThresholdAnomaliser":
         inner = draw(st.sampled_from(["PELT", "MovingWindow", "SeededBinarySegmentation"]))
